@@ -148,7 +148,14 @@ def file_text(rng, f):
             k += 1
         if line is not None:
             out.append(line)
-    return ''.join(head + out)
+    text = ''.join(head + out)
+    _FILE_NO[0] += 1
+    if _FILE_NO[0] % 3 == 0:
+        text = text.rstrip('\n')       # an editor that does not end the last line: that line is still a row of the table
+    return text
+
+
+_FILE_NO = [0]
 
 
 def _case(rng, s):
